@@ -9,7 +9,7 @@
      valid_hist_e2e cap := moreover escape_free DLCI and payload shorter than cap
    frame d p = 126 :: escape (d :: 3 :: p) ++ [126];  rmsg (d, p) = RMsg d p = dispatch_rx_msg(d, p). *)
 From Coq Require Import ZArith List Bool.
-From OBB Require Import Gen.SercommConst Model.Sercomm Proofs.SercommP Proofs.SercommTxP Proofs.SercommS.
+From OBB Require Import Gen.SercommConst Model.Sercomm Model.SercommDrv Proofs.SercommP Proofs.SercommTxP Proofs.SercommS Proofs.SercommDrvP.
 Import ListNotations.
 Open Scope Z_scope.
 
@@ -181,3 +181,85 @@ Theorem c06_noise_after_overlong_refuted :
   = [(9, [2]); (126, [3; 2]); (5, [3])].
 Proof. exact s_noise_after_overlong_refuted. Qed.
 Print Assumptions c06_noise_after_overlong_refuted.
+
+(* ------------------------------------------------------------------------------------------------------------------
+   Driver glue: src/host/osmocon/osmocon.c handle_sercomm_write() drains the transmit side into the serial port.
+   Model/SercommDrv.v:  drv_write_chunk t = one call (at most 256 pulls, the bound checked BEFORE each pull, stops at the
+   first pull that returns 0) = (new tx state, octets handed to write(), DMore | DEnd = osmo_fd_write_disable called);
+   drain fuel t = the calls of the select loop until write polling is disabled, one (octets, result) entry per call;
+   written calls = concat (map fst calls);
+   pending t = remaining t ++ concat (map frame_of (concat (queues t))) = rest of the frame in transmission followed by
+   the frames of everything queued, lowest DLCI first, FIFO per DLCI. *)
+
+(* sizeof(buffer) in the source text *)
+Theorem c06_drv_constants : c_drv_write_buffer = 256.
+Proof. exact s_drv_constants. Qed.
+Print Assumptions c06_drv_constants.
+
+(* [pending] IS the octet stream repeated sercomm_drv_pull calls yield, after any history of sendmsg/pull:
+   n pulls return its first n octets and leave the rest pending; it is empty exactly when a pull returns 0 *)
+Theorem c06_drv_pending : forall h n, let t := fst (tx_run tx0 h) in
+  snd (tx_run t (repeat Pull n)) = firstn n (pending t) /\
+  pending (fst (tx_run t (repeat Pull n))) = skipn n (pending t) /\
+  (pending t = [] <-> pull t = (PNone, t)).
+Proof. exact s_drv_pending. Qed.
+Print Assumptions c06_drv_pending.
+
+(* one call of handle_sercomm_write in any reachable transmit state: it writes exactly the first (at most 256) pending
+   octets, the state afterwards is the state after exactly that many pulls (no octet is pulled and not written), the
+   rest stays pending; end is reported iff fewer than 256 octets were pending, and then nothing is pending *)
+Theorem c06_drv_chunk : forall h, let t := fst (tx_run tx0 h) in
+  exists t' o r, drv_write_chunk t = (t', o, r) /\
+    o = firstn 256 (pending t) /\ pending t' = skipn 256 (pending t) /\
+    tx_run t (repeat Pull (length o)) = (t', o) /\ (length o <= 256)%nat /\
+    ((r = DMore /\ length o = 256%nat /\ (256 <= length (pending t))%nat) \/
+     (r = DEnd /\ (length o < 256)%nat /\ o = pending t /\ pull t' = (PNone, t'))).
+Proof. exact s_drv_chunk. Qed.
+Print Assumptions c06_drv_chunk.
+
+(* repeated calls until write polling is disabled: the concatenation of the chunks written is exactly the octet stream
+   repeated pulls yield (nothing lost, nothing duplicated, order kept); every chunk has at most 256 octets; every call
+   but the last writes exactly 256 octets and does not report end, the last one reports end; the number of calls is
+   pending/256 + 1; afterwards nothing is pending and a pull returns 0 *)
+Theorem c06_drv_drain : forall h fuel, let t := fst (tx_run tx0 h) in
+  (length (pending t) < fuel * 256)%nat ->
+  exists t' calls, drain fuel t = (t', calls) /\
+    written calls = pending t /\
+    (forall n, (length (pending t) <= n)%nat -> written calls = snd (tx_run t (repeat Pull n))) /\
+    Forall (fun c => (length (fst c) <= 256)%nat) calls /\
+    map snd calls = repeat DMore (length calls - 1) ++ [DEnd] /\
+    Forall (fun c => snd c = DMore -> length (fst c) = 256%nat) calls /\
+    length calls = (length (pending t) / 256 + 1)%nat /\
+    pending t' = [] /\ pull t' = (PNone, t').
+Proof. exact s_drv_drain. Qed.
+Print Assumptions c06_drv_drain.
+
+(* end to end through the driver glue: messages queued, drained by handle_sercomm_write calls, the written octets fed to
+   a receiver that starts idle: every message is dispatched exactly once, unchanged, lower DLCI first, FIFO per DLCI *)
+Theorem c06_drv_end_to_end_batch : forall cap sd fuel, 0 < cap ->
+  Forall (fun x => 0 <= fst x < 129 /\ escape_free (fst x) /\ len (snd x) < cap) sd ->
+  (length (concat (map frame' (sorted_by_dlci sd))) < fuel * 256)%nat ->
+  exists t' calls, drain fuel (fst (tx_run tx0 (map send_of sd))) = (t', calls) /\
+    written calls = concat (map frame' (sorted_by_dlci sd)) /\
+    snd (rx_run cap rx0 (written calls)) = map rmsg (sorted_by_dlci sd) /\
+    Forall (fun c => (length (fst c) <= 256)%nat) calls /\
+    map snd calls = repeat DMore (length calls - 1) ++ [DEnd] /\
+    length calls = (length (concat (map frame' (sorted_by_dlci sd))) / 256 + 1)%nat /\
+    pull t' = (PNone, t').
+Proof. exact s_drv_end_to_end_batch. Qed.
+Print Assumptions c06_drv_end_to_end_batch.
+
+(* non-vacuity: a pending run longer than the buffer (one 400-octet message = 404 framed octets; two messages back to
+   back on DLCIs 9 and 4 = 263 framed octets, the 257th octet opens the second chunk) *)
+Theorem c06_drv_example :
+  let t := fst (tx_run tx0 [Send 5 (repeat 65 400)]) in
+  length (pending t) = 404%nat /\
+  (let '(_, calls) := drain 2 t in
+   map (fun c => (length (fst c), snd c)) calls = [(256%nat, DMore); (148%nat, DEnd)] /\
+   written calls = frame 5 (repeat 65 400) /\
+   snd (rx_run 2048 rx0 (written calls)) = [RMsg 5 (repeat 65 400)]) /\
+  (let '(_, calls) := drain 2 (fst (tx_run tx0 [Send 9 [1]; Send 4 (repeat 66 254)])) in
+   map (fun c => (length (fst c), snd c)) calls = [(256%nat, DMore); (7%nat, DEnd)] /\
+   snd (rx_run 2048 rx0 (written calls)) = [RMsg 4 (repeat 66 254); RMsg 9 [1]]).
+Proof. exact s_drv_example. Qed.
+Print Assumptions c06_drv_example.
